@@ -71,6 +71,22 @@ def choose_cfg(rng, probe, max_frags=45):
     return cfg
 
 
+def skel_candidates(sk):
+    """SPEC side: every candidate node of a file's statement skeleton, through all five statement lists."""
+    if not sk:
+        return []
+    out = [(sk["s"], sk["e"])] if sk["c"] else []
+    for lst in sk["l"]:
+        for sub in lst or []:
+            out += skel_candidates(sub)
+    return out
+
+
+def skel_term(sk):
+    return "(Walk.mk %s %s %s %s)" % (cZ(sk["s"]), cZ(sk["e"]), "true" if sk["c"] else "false",
+                                      " ".join(clist([skel_term(x) for x in (lst or [])]) for lst in sk["l"]))
+
+
 def loc_of(c):
     l = c["location"]
     return (l["file_path"], l["start_line"], l["end_line"])
@@ -385,7 +401,7 @@ def main(tier):
     cfgs_per = 3 if thorough else 2
     stats = dict(projects=0, cli_runs=0, reported_pairs=0, verbatim_expected=0, verbatim_found=0, verbatim_missed_f19=0,
                  order_runs=0, model_cases=0, extract_cases=0, boundary_thresholds=0, relations={}, truncated=0, lsh_cli=0,
-                 placements={}, verbatim_not_extracted_known=0)
+                 placements={})
     cases = []
     if not ck.go_ok:
         ck.finish()
@@ -394,8 +410,19 @@ def main(tier):
     projects = []
     for pi in range(n_proj):
         # copy placements: every project has one verbatim copy nested in a compound statement (cycling through clonecommon.WRAPS:
-        # handler of try/except, finally block, else of try, try body, with, else of if), others at random; docstrings on some bases
-        wraps = sorted(cc.WRAPS, key=lambda w: (w not in cc.HANDLER_WRAPS, w))
+        # handler of try/except and try/except*, second handler, finally block, handler in finally / finally in handler, handler of a
+        # try inside with / def / else of for; else of try, try body, with, else of if), others at random; docstrings on some bases
+        # (handler/finally placements first, both groups in an order drawn per seed: the quick tier's projects see a different
+        # selection for each VERIF_SEED, the thorough tier all of them many times)
+        if pi == 0:
+            side = cc.side_rng(rng)
+            hw, ow = sorted(cc.HANDLER_WRAPS), sorted(w for w in cc.WRAPS if w not in cc.HANDLER_WRAPS)
+            side.shuffle(hw)
+            side.shuffle(ow)
+            # quick: 5 handler/finally placements and 2 others; "except" or "finally" always among them
+            first = ("except", "finally")[side.randrange(2)]
+            hw.sort(key=lambda w: w != first)
+            wraps = (hw[:5] + ow[:2] + hw[5:] + ow[2:]) if not thorough else hw + ow
         texts, items = cc.gen_project(rng, n_bases=rng.randint(2, 3), max_items=rng.choice([5, 6, 7, 9]) if thorough else rng.choice([4, 5, 6]),
                                       force_wrap=wraps[pi % len(wraps)], doc_p=0.3)
         projects.append((texts, items))
@@ -517,11 +544,17 @@ def main(tier):
                                         use_gate=res["uses_gate"])
         cells, gates = cc.coq_cells(table, mc["t4"])
         sigs = cc.coq_sigs(lsh_res, cc.Coder()) if lsh_res else "[]"
-        body = ("Definition cands := %s.\nDefinition tabs := Build_tables %s %s %s.\nDefinition c := %s.\n"
+        # the statement skeleton of every file (built by the hook through all five statement lists): the model walk over the
+        # lists extractFragmentsRecursive follows must list the candidates ExtractFragments lists, in its order
+        r["skel_files"] = [p for p in req["paths"] if (res.get("skeletons") or {}).get(p)]
+        body = ("From PV Require Clone.Walk.\n"
+                "Definition cands := %s.\nDefinition tabs := Build_tables %s %s %s.\nDefinition c := %s.\n"
                 "Eval vm_compute in (run_extract c cands).\n"
                 "Eval vm_compute in (run_report tabs c %s %s cands).\n"
                 "Eval vm_compute in (run_exhaustive tabs c (Pairs.extract c cands)).\n"
-                % (clist(cterms), cells, gates, sigs, cc.coq_cfg(mc), cZ(mode), cZ(req["lsh_auto_threshold"])))
+                "Eval vm_compute in (map (Walk.walk clone_walk_fields) %s).\n"
+                % (clist(cterms), cells, gates, sigs, cc.coq_cfg(mc), cZ(mode), cZ(req["lsh_auto_threshold"]),
+                   clist([skel_term(res["skeletons"][p]) for p in r["skel_files"]])))
         jobs.append(("C08_case_%d" % ri, cc.REQ, body))
         r["job"] = len(jobs) - 1
     model_out = None
@@ -608,14 +641,27 @@ def main(tier):
                 what = ("verbatim copy of %s %s (%s:%d, %d lines, Size %d) at %s:%d is never extracted as a fragment (placement: %s), so the pair is not reported" % (
                     it["kind"], it["name"], frags[a]["file"], frags[a]["start"], frags[a]["lines"], frags[a]["size"], it["path"], it["start"],
                     it.get("wrap") or "top level"))
-                e = ck.match_known(tags)
-                if e:
-                    stats["verbatim_not_extracted_known"] += 1
-                    ck.known_finding(e)
-                    if len(ck.samples) < 6:
-                        ck.samples.append({"known_finding": e["id"], "what": what})
-                else:
-                    ck.violation(what, dict(replay, frag_a=frags[a], copy=it, tags=tags))
+                ck.violation(what, dict(replay, frag_a=frags[a], copy=it, tags=tags))
+            elif a is not None and it.get("wrap"):
+                stats["nested_copies_extracted"] = stats.get("nested_copies_extracted", 0) + 1
+        # every function, class or compound statement of a file - wherever it stands: the hook's own traversal of Children, Body,
+        # Orelse, Handlers and Finalbody - is a candidate of the production walk (ExtractFragments without a minimum size)
+        for path in req["paths"]:
+            sk = (res.get("skeletons") or {}).get(path)
+            prod = [(c["start"], c["end"]) for c in cands if c["file"] == path]
+            spec = skel_candidates(sk)
+            stats["skeleton_candidates"] = stats.get("skeleton_candidates", 0) + len(spec)
+            lost = sorted(set(spec) - set(prod))
+            if lost:
+                stats["candidates_not_visited"] = stats.get("candidates_not_visited", 0) + len(lost)
+            if lost and stats.get("not_visited_reported", 0) < 4:      # a few concrete witnesses are enough
+                stats["not_visited_reported"] = stats.get("not_visited_reported", 0) + 1
+                ck.violation("%s lines %d-%d is a function, class or compound statement of the parsed file but the fragment walk never visits it "
+                             "(%d of %d candidate nodes of the file are not visited), so no copy of it can be reported" % (
+                                 path, lost[0][0], lost[0][1], len(lost), len(spec)),
+                             dict(replay, file=path, not_visited=lost[:10], tags={"kind": "candidate-not-visited"}))
+            elif sorted(spec) != sorted(prod):
+                ck.broken_ties.append("ExtractFragments lists candidates the statement skeleton of %s does not have: %s" % (path, sorted(set(prod) - set(spec))[:5]))
         if can_expect:
             for i in range(len(frags)):
                 for j in range(i + 1, len(frags)):
@@ -673,6 +719,12 @@ def main(tier):
                 ck.broken_ties.append("model extract differs from ExtractFragments: model %s impl %s (min_lines %d min_nodes %d)" % (
                     m_extract[:20], cid[:20], req["min_lines"], req["min_nodes"]))
             stats["extract_cases"] += 1
+            for path, mw in zip(r["skel_files"], mv[3] if len(mv) > 3 else []):
+                prod = [(c["start"], c["end"]) for c in cands if c["file"] == path]
+                stats["walk_cases"] = stats.get("walk_cases", 0) + 1
+                if [tuple(x) for x in mw] != prod:
+                    ck.broken_ties.append("model walk (Clone/Walk.v over clone_walk_fields) differs from the candidates of ExtractFragments in %s: model %s impl %s" % (
+                        path, [tuple(x) for x in mw][:12], prod[:12]))
             impl_exh = [(cid[p["i"]], cid[p["j"]], p["type"]) for p in res["exh_raw"]]
             if m_exh != impl_exh:
                 ck.broken_ties.append("model exhaustive loop differs from detectClonePairsStandard: model-only %s impl-only %s" % (
@@ -696,7 +748,10 @@ def main(tier):
         "distinct_nontrivial": stats["reported_pairs"],
         "rule": "generated projects (fragment library: functions/classes x verbatim+noise / renamed / edited / unrelated x same file, other file, "
                 "other directory) x configurations accepted by Validate (thresholds on observed similarities +-2^-40, min sizes at fragment sizes +-1, "
-                "service filter ranges, enabled type subsets, classifier gate on/off, LSH on/off) x file orders; plus related-construct twins: for every "
+                "service filter ranges, enabled type subsets, classifier gate on/off, LSH on/off) x file orders; one verbatim copy per project nested in a "
+                "compound statement (except / except* / second handler / finally, handler in finally and finally in handler, handler of a try inside "
+                "with / def / else of for; else of try, try body, with, else of if) and, per file, every candidate node of the statement skeleton "
+                "against the production walk; plus related-construct twins: for every "
                 "entry of PythonCostModel.areRelatedNodeTypes (read from apted_cost.go: def/async def, for/async for, with/async with, BinOp/UnaryOp, "
                 "List/Tuple, ListComp/GeneratorExp, If/IfExp) and for same-category kinds a fragment and its twin differing only in those node types "
                 "(1-4 occurrences): sim/dist/gate in both orientations under the CLI's cost model and the python-boilerplate / ignore / default / "
@@ -714,6 +769,9 @@ def main(tier):
         "float64 comparisons sizeDiff/avg > 0.5 and jaccard < 0.10 modelled exactly over Q (no rounding boundary reachable for fragment sizes < 2^52)",
         "sort.Slice is unstable: with more than MaxClonePairs qualifying pairs the kept set is not determined; model and theorems cover the untruncated case exactly",
         "hand-written model Clone/Pairs.v of clone_detector.go / clone_service.go / lsh_index.go",
+        "fragment candidates: model Clone/Walk.v over the statement lists read from the `range node.<list>` loops of extractFragmentsRecursive / "
+        "ConvertAST (translator); compared per file with ExtractFragments (no minimum size) on the statement skeleton the hook builds with "
+        "its own traversal of Children, Body, Orelse, Handlers, Finalbody; isFragmentCandidate (the node kinds) is used as is",
     ]
     ck.finish(assumptions=["fewer than MaxClonePairs (10000) qualifying pairs (no truncation) for verbatim/order clauses",
                            "tree-sitter parsing and tree conversion are exercised end-to-end, not modelled"])
